@@ -192,6 +192,13 @@ Section Structural.
          then all_some (map (fun r => np_set None (Some (Z.of_nat old)) (nans (Z.to_nat depth)) r) s)
          else Some (map (np_get None (Some depth)) s).
 
+  (* the depth setter of a column whose new cells hold `pad` (np.zeros, overwritten with NaN only `if self.defaultnan`) *)
+  Definition set_depth1_pad (pad : sample) (old : nat) (depth : Z) (s : series) : option series :=
+    if k_depth_same depth (Z.of_nat old) then Some s
+    else if k_depth_grow depth (Z.of_nat old)
+         then all_some (map (fun r => np_set None (Some (Z.of_nat old)) (repeat pad (Z.to_nat depth)) r) s)
+         else Some (map (np_get None (Some depth)) s).
+
   (* ----- fft: abstract per-row transform, then the depth setter *)
   Definition fft1 (f : row -> row) (d : nat) (truncate : bool) (s : series) : option series :=
     let full := map f s in
@@ -200,7 +207,7 @@ End Structural.
 
 Arguments smap {V}. Arguments endlock_row1 {V}. Arguments endlock1 {V}. Arguments lock1 {V}.
 Arguments threshold_row1 {V}. Arguments threshold1 {V}. Arguments window1 {V}. Arguments getslice1 {V}.
-Arguments concatenate1 {V}. Arguments nt_row1 {V}. Arguments normalize_time1 {V}. Arguments set_depth1 {V}.
+Arguments concatenate1 {V}. Arguments nt_row1 {V}. Arguments normalize_time1 {V}. Arguments set_depth1 {V}. Arguments set_depth1_pad {V}.
 Arguments fft1 {V}. Arguments thr_loop {V}. Arguments endlock_scan {V}. Arguments nan_positions {V}.
 Arguments smap_loop {V}. Arguments cat_loop {V}. Arguments set_cols {V}. Arguments scatter {V}.
 
